@@ -15,3 +15,6 @@ import RdfModel.Props.C11Md
 #print axioms RdfModel.C11Md.mdd_refines_denote_renaming
 #print axioms RdfModel.C11Md.mdd_reads_canonical_partial
 #print axioms RdfModel.C11Md.mdd_goTok_of_plain
+#print axioms RdfModel.C11Md.mdd_refines_denote_nested_partial
+#print axioms RdfModel.C11Md.mdd_reads_written_partial
+#print axioms RdfModel.C11Md.mdd_copy_cost_bound
